@@ -357,12 +357,15 @@ reg(Check("C11", "model_checking",
                  Part("msg", SRV, "^TestVerifC11Msg$", instr=True, gomaxprocs=16, deadline=(400, 3000))]))
 
 reg(Check("C14", "model_checking",
-          "all schedules up to the deviation bound (quick 1, thorough 2) of 10 colliding scenarios on one group and one p2p topic with 5 sessions: "
+          "all schedules up to the deviation bound (quick 1, thorough 2) of 13 colliding scenarios on one group and one p2p topic with 5 sessions: "
           "leave|pub|sub, sub|disconnect, leave|eviction, del-sub|unsub|pub, del-topic|sub|pub, two subs in the load gap, idle unload|sub|disconnect, "
           "slow consumer (a session whose connection stopped taking data, 160 queued messages) | pub | leave | pub, "
-          "p2p unsub|unsub|resub, del-user|sub me; atomics loads are scheduling points; oracle at quiescence after virtual time has "
+          "p2p unsub|unsub|resub, del-user|sub me, owner suspended | group loading, p2p unsub|pub on one connection, a stalled session attached to 70 groups "
+          "whose owner is deleted (70 detach notices for a queue of 64; bound 0/1); atomics loads are scheduling points; oracle at quiescence after virtual time has "
           "settled: every sub/leave/del answered, Session.subs <-> Topic.sessions symmetric, terminated sessions detached, online counters, "
-          "request slots released, no deadlock / panic / livelock, no unprotected access; plus deleted topics stay deleted on every transition of the acl and p2p searches",
+          "request slots released, no deadlock / panic / livelock, no unprotected access; plus deleted topics stay deleted on every transition of the acl and p2p searches; acl-fault: after a request which failed "
+          "on a store error a disconnecting session still ends up detached; at-end: one of 7 requests handled completely at every store-call boundary / atomic operation "
+          "of a group's idle unload, of its deletion by the owner and of the deletion of a member's account",
           ["deviation-bounded; map iteration order fixed (sorted)", "protection of shared data is decided as lock discipline: every executed statement mentioning Session.subs / SessionStore.sessCache,lru "
            "must run with the object's lock held by the executing goroutine (exclusively for writes), Session.terminating / Topic.status only "
            "through sync/atomic; goroutine-owned topic tables and a free-running race detector pass are not covered; see DESIGN.md 9.2"],
